@@ -506,3 +506,37 @@ int   snoopy_tsrm_get_threadCount ()
 
     return threadCount;
 }
+
+
+
+/*
+ * snoopy_tsrm_localtime_r()
+ *
+ * Description:
+ *     localtime_r() with the threadRepo mutex held. libc guards its timezone
+ *     data with an internal lock that fork() does not reset: a child forked
+ *     while another thread is inside localtime_r() would block forever in its
+ *     own localtime_r() call. The fork() handlers hold the threadRepo mutex
+ *     across fork(), therefore no thread can be in here at that moment.
+ *
+ * Params:
+ *     timep:    time to convert
+ *     result:   where to store the broken-down local time
+ *
+ * Return:
+ *     struct tm*:   result, or NULL on error (as localtime_r())
+ */
+struct tm *   snoopy_tsrm_localtime_r (const time_t *timep, struct tm *result)
+{
+    struct tm   *retVal;
+
+    // Mutex START
+    pthread_mutex_lock(&snoopy_tsrm_threadRepo_mutex);
+
+    retVal = localtime_r(timep, result);
+
+    // Mutex END
+    pthread_mutex_unlock(&snoopy_tsrm_threadRepo_mutex);
+
+    return retVal;
+}
